@@ -254,21 +254,33 @@ def _additive(repo, col):
     if not ex.returns or ex.returns[0].op != "tuple" or len(ex.returns[0].args) != 2:
         raise AnalysisError("gather_synapes no longer returns a pair")
     p = fi.params
+    def scatter_parts(t):
+        """(op, base, index, update) of lax.scatter_add(base, idx[:, None], upd, dnums) and of base.at[idx].add/set(upd)"""
+        if t.op == "call" and t.name in ("scatter_add", "scatter") and len(t.args) >= 3:
+            return ("add" if t.name == "scatter_add" else "set"), t.args[0], t.args[1], t.args[2]
+        if t.op == "mcall" and t.name in ("scatter_add", "scatter") and len(t.args) >= 4:
+            return ("add" if t.name == "scatter_add" else "set"), t.args[1], t.args[2], t.args[3]
+        if t.op == "mcall" and t.name in ("add", "set") and t.args[0].op == "sub" and t.args[0].args[0].op == "attr" and \
+                t.args[0].args[0].name == "at" and len(t.args) > 1:
+            return t.name, t.args[0].args[0].args[0], t.args[0].args[1], t.args[1]
+        return None
+
     for i, (t, want_param) in enumerate(zip(ex.returns[0].args, (p[2], p[3]))):
-        is_add = (t.op == "call" and t.name == "scatter_add") or (t.op == "mcall" and t.name in ("scatter_add", "add"))
-        fname = t.name if t.op in ("call", "mcall") else t.op
-        col.check(is_add, R, fi, f"gather_synapes: output {i} accumulates with scatter_add",
+        parts = scatter_parts(t)
+        if parts is None:
+            col.unk(R, fi, f"gather_synapes: output {i}", f"not a scatter: {t.short(80)}", node=t.node or fi.node)
+            continue
+        op, base, ix, upd = parts
+        col.check(op == "add", R, fi, f"gather_synapes: output {i} accumulates (scatter-add)",
                   "currents of several synapses onto one compartment add",
-                  f"output {i} is built with `{fname}`: when several synapses project onto one compartment only one "
+                  f"output {i} is built with a scatter that overwrites: when several synapses project onto one compartment only one "
                   f"contribution survives", node=t.node or fi.node)
-        if t.op == "call" and len(t.args) >= 3:
-            base, ix, upd = t.args[0], t.args[1], t.args[2]
-            col.check(T.find(base, lambda x: x.op == "mcall" and x.name == "zeros") is not None, R, fi,
-                      f"gather_synapes: output {i} starts from zeros", "zeros(number_of_compartments)", f"base {base.short()}", node=t.node)
-            col.check(T.find(ix, lambda x: x.op == "param" and x.name == p[1]) is not None, R, fi,
-                      f"gather_synapes: output {i} is scattered with the post indices", p[1], f"index {ix.short()}", node=t.node)
-            col.check(upd.op == "param" and upd.name == want_param, R, fi, f"gather_synapes: output {i} scatters `{want_param}`",
-                      want_param, f"scatters {upd.short()}", node=t.node)
+        col.check(T.find(base, lambda x: x.op == "mcall" and x.name in ("zeros", "zeros_like")) is not None, R, fi,
+                  f"gather_synapes: output {i} starts from zeros", "zeros(number_of_compartments)", f"base {base.short()}", node=t.node)
+        col.check(T.find(ix, lambda x: x.op == "param" and x.name == p[1]) is not None, R, fi,
+                  f"gather_synapes: output {i} is scattered with the post indices", p[1], f"index {ix.short()}", node=t.node)
+        col.check(upd.op == "param" and upd.name == want_param, R, fi, f"gather_synapes: output {i} scatters `{want_param}`",
+                  want_param, f"scatters {upd.short()}", node=t.node)
 
 
 def _types(repo, col):
